@@ -6,6 +6,7 @@ import (
 	"context"
 	"crypto/ed25519"
 	"fmt"
+	"math/big"
 	"math/rand"
 	"strconv"
 	"strings"
@@ -20,18 +21,19 @@ import (
 
 func init() {
 	h.Register(&h.Prop{ID: "C14", Gen: genC14, Exec: withCells(map[string]h.ExecFn{
-		"m.body":     exMBody,
-		"m.raw":      exMRaw,
-		"m.decode":   exMDecode,
-		"m.verify":   exMVerify,
-		"go.m.sign":  goMSign,
-		"go.m.limit": goMLimit,
-		"go.m.modes": goMModes,
-		"m.int":      exMInt,
-		"m.intdec":   exMIntDec,
-		"m.bodyx":    exMBodyX,
-		"m.extn":     exMExtn,
-		"go.m.ext":   goMExt,
+		"m.body":        exMBody,
+		"m.raw":         exMRaw,
+		"m.decode":      exMDecode,
+		"m.verify":      exMVerify,
+		"go.m.sign":     goMSign,
+		"go.m.limit":    goMLimit,
+		"go.m.modes":    goMModes,
+		"m.int":         exMInt,
+		"m.intdec":      exMIntDec,
+		"go.m.smallkey": goMSmallKey,
+		"m.bodyx":       exMBodyX,
+		"m.extn":        exMExtn,
+		"go.m.ext":      goMExt,
 	})})
 }
 
@@ -108,6 +110,63 @@ type sendSpec struct {
 	mode             uint8
 	commentLen, seed int
 	init             bool
+	extras           []extraCur // SimpleTransfer.ExtraCurrency (kind "s" only)
+}
+
+// extraCur: one extra currency: id as the int32 map key of the Go API, amount as a decimal string (up to 31 bytes)
+type extraCur struct {
+	id  int32
+	amt string
+}
+
+// xs: the extra currencies that count: only a SimpleTransfer has the field
+func (s sendSpec) xs() []extraCur {
+	if s.kind != "s" {
+		return nil
+	}
+	return s.extras
+}
+
+func fmtExtras(l []extraCur) string {
+	if len(l) == 0 {
+		return "-"
+	}
+	ss := make([]string, len(l))
+	for i, x := range l {
+		ss[i] = fmt.Sprintf("%d:%s", uint32(x.id), x.amt)
+	}
+	return strings.Join(ss, "+")
+}
+
+func parseExtras(s string) []extraCur {
+	if s == "-" || s == "" {
+		return nil
+	}
+	var l []extraCur
+	for _, it := range strings.Split(s, "+") {
+		f := strings.Split(it, ":")
+		id, err := strconv.ParseUint(f[0], 10, 32)
+		if err != nil {
+			panic("bad extra currency " + it)
+		}
+		l = append(l, extraCur{int32(uint32(id)), f[1]})
+	}
+	return l
+}
+
+func extrasMap(l []extraCur) map[int32]tlb.VarUInteger32 {
+	if len(l) == 0 {
+		return nil
+	}
+	m := map[int32]tlb.VarUInteger32{}
+	for _, x := range l {
+		v, ok := new(big.Int).SetString(x.amt, 10)
+		if !ok {
+			panic("bad amount " + x.amt)
+		}
+		m[x.id] = tlb.VarUInteger32(*v)
+	}
+	return m
 }
 
 func (s sendSpec) String() string {
@@ -118,7 +177,7 @@ func (s sendSpec) String() string {
 	if s.init {
 		i = 1
 	}
-	return fmt.Sprintf("%s,%d,%d,%s,%d,%d,%d,%d,%d", s.kind, s.amount, s.wc, h.Hex(s.addr[:]), b, s.mode, s.commentLen, s.seed, i)
+	return fmt.Sprintf("%s,%d,%d,%s,%d,%d,%d,%d,%d,%s", s.kind, s.amount, s.wc, h.Hex(s.addr[:]), b, s.mode, s.commentLen, s.seed, i, fmtExtras(s.xs()))
 }
 
 func parseSpec(x string) sendSpec {
@@ -133,6 +192,9 @@ func parseSpec(x string) sendSpec {
 	s.commentLen = atoi(f[6])
 	s.seed = atoi(f[7])
 	s.init = f[8] == "1"
+	if len(f) > 9 {
+		s.extras = parseExtras(f[9])
+	}
 	return s
 }
 
@@ -150,7 +212,7 @@ func (s sendSpec) sendable() wallet.Sendable {
 	body, code, data, comment := s.parts()
 	switch s.kind {
 	case "s":
-		return wallet.SimpleTransfer{Amount: tlb.Grams(s.amount), Address: to, Comment: comment, Bounceable: s.bounce}
+		return wallet.SimpleTransfer{Amount: tlb.Grams(s.amount), Address: to, Comment: comment, Bounceable: s.bounce, ExtraCurrency: extrasMap(s.xs())}
 	case "d":
 		d := wallet.ContractDeploy{Workchain: s.wc, Code: code, Data: data, Amount: tlb.Grams(s.amount)}
 		if body != nil {
@@ -752,7 +814,7 @@ func goMLimit(a []string) string {
 	return "ok"
 }
 
-// m.int <kind> <amount> <wc> <addrhex> <bounce> <mode> <commenthex|-> <body|-> <code|-> <data|->: the internal message
+// m.int <kind> <amount> <wc> <addrhex> <bounce> <mode> <commenthex|-> <body|-> <code|-> <data|-> <extras|->: the internal message
 // ToInternal + Marshal produce for wallet.SimpleTransfer (s), wallet.Message (m), wallet.ContractDeploy (d), and the
 // mode ToInternal returns: "ok <mode> <cells>"
 func exMInt(a []string) string {
@@ -769,7 +831,8 @@ func exMInt(a []string) string {
 	var sd wallet.Sendable
 	switch a[0] {
 	case "s":
-		sd = wallet.SimpleTransfer{Amount: tlb.Grams(amount), Address: to, Comment: string(unComment(a[6])), Bounceable: a[4] == "1"}
+		sd = wallet.SimpleTransfer{Amount: tlb.Grams(amount), Address: to, Comment: string(unComment(a[6])), Bounceable: a[4] == "1",
+			ExtraCurrency: extrasMap(parseExtras(a[10]))}
 	case "m":
 		sd = wallet.Message{Amount: tlb.Grams(amount), Address: to, Bounce: a[4] == "1", Mode: uint8(atoi(a[5])), Body: opt(a[7]), Code: opt(a[8]), Data: opt(a[9])}
 	case "d":
@@ -830,7 +893,16 @@ func exMIntDec(a []string) string {
 		}
 	}
 	body := boc.Cell(m.Body.Value)
-	return fmt.Sprintf("ok %s %s %d %s %s %s %s", b(info.Bounce), dest, uint64(info.Value.Grams), b(m.Init.Exists), code, data, hashOrNil(&body))
+	xs := ""
+	if items := info.Value.Other.Dict.Items(); len(items) > 0 {
+		var ss []string
+		for _, it := range items {
+			v := big.Int(it.Value)
+			ss = append(ss, fmt.Sprintf("%d:%s", uint32(it.Key), v.String()))
+		}
+		xs = " x=" + strings.Join(ss, "+")
+	}
+	return fmt.Sprintf("ok %s %s %d %s %s %s %s%s", b(info.Bounce), dest, uint64(info.Value.Grams), b(m.Init.Exists), code, data, hashOrNil(&body), xs)
 }
 
 func unComment(x string) []byte {
@@ -838,6 +910,35 @@ func unComment(x string) []byte {
 		return nil
 	}
 	return h.MustUnHex(x[1:])
+}
+
+// go.m.smallkey <ver> <fseed>: THE LIMIT of the idealisation (lean/TongoProofs/Lemmas/SigIdeal.lean), witnessed on the
+// real code: under the small-order Ed25519 key 01 00 … 00 (not an honestly generated key) VerifySignature accepts ANY body
+// carrying the fixed signature R = identity, S = 0. "No other key" is therefore stated, and true, for honestly
+// generated keys only. "ok" = the limit reproduces.
+func goMSmallKey(a []string) string {
+	ver := wallet.Version(atoi(a[0]))
+	r := rand.New(rand.NewSource(atoi64(a[1])))
+	low := make([]byte, 32)
+	low[0] = 1
+	sig := make([]byte, 64)
+	sig[0] = 1
+	for i := 0; i < 4; i++ {
+		signed := boc.NewCell()
+		for j := r.Intn(400); j > 0; j-- {
+			_ = signed.WriteBit(r.Intn(2) == 1)
+		}
+		var self [32]byte
+		env := rebuildExt(&sentInfo{destWc: 0, destAddr: self}, refAttach(ver, signed, sig))
+		if err := wallet.VerifySignature(ver, env, low); err != nil {
+			return "FAIL limit-not-reproduced small-order-key-rejected"
+		}
+		pub, _, _ := ed25519.GenerateKey(r)
+		if err := wallet.VerifySignature(ver, tableCell(cellTable(env)), pub); err == nil {
+			return "FAIL honest-key-accepted-the-fixed-signature"
+		}
+	}
+	return "ok"
 }
 
 // intLine: the m.int arguments of a spec
@@ -857,7 +958,7 @@ func (s sendSpec) intLine() []string {
 	if s.kind == "s" && comment != "" {
 		cm = "-" + h.Hex([]byte(comment))
 	}
-	return []string{s.kind, fmt.Sprint(s.amount), fmt.Sprint(s.wc), h.Hex(s.addr[:]), b, fmt.Sprint(s.mode), cm, opt(body), opt(code), opt(data)}
+	return []string{s.kind, fmt.Sprint(s.amount), fmt.Sprint(s.wc), h.Hex(s.addr[:]), b, fmt.Sprint(s.mode), cm, opt(body), opt(code), opt(data), fmtExtras(s.xs())}
 }
 
 // --------------------------------------------------------------------------------------------------- generator
@@ -896,11 +997,60 @@ func genSpec(g *h.G) sendSpec {
 		s.commentLen = g.Rng.Intn(2001)
 	}
 	s.seed = g.Rng.Intn(1 << 30)
+	if s.kind == "s" && g.Rng.Intn(3) == 0 {
+		s.extras = genExtras(g)
+	}
 	s.init = s.kind == "m" && g.Rng.Intn(4) == 0
 	if g.Rng.Intn(8) == 0 {
 		s.kind, s.init, s.mode = "d", false, wallet.DefaultMessageMode
 	}
 	return s
+}
+
+// genExtras: 1..3 extra currencies with distinct ids (0, 2^31-1, 2^32-1 = int32(-1), small, random) and amounts 0, 1,
+// 2^63, 2^64, 2^248-1 (31 bytes, the maximum of VarUInteger 32), random
+func genExtras(g *h.G) []extraCur {
+	n := 1 + g.Rng.Intn(3)
+	seen := map[int32]bool{}
+	var l []extraCur
+	for len(l) < n {
+		var id int32
+		switch g.Rng.Intn(6) {
+		case 0:
+			id = 0
+		case 1:
+			id = 2147483647
+		case 2:
+			id = -1
+		case 3:
+			id = int32(g.Rng.Intn(100))
+		case 4:
+			id = -2147483648
+		default:
+			id = int32(g.Rng.Uint32())
+		}
+		if seen[id] {
+			continue
+		}
+		seen[id] = true
+		var amt *big.Int
+		switch g.Rng.Intn(7) {
+		case 0:
+			amt = big.NewInt(0)
+		case 1:
+			amt = big.NewInt(1)
+		case 2:
+			amt = new(big.Int).Lsh(big.NewInt(1), 63)
+		case 3:
+			amt = new(big.Int).Lsh(big.NewInt(1), 64)
+		case 4:
+			amt = new(big.Int).Sub(new(big.Int).Lsh(big.NewInt(1), 248), big.NewInt(1))
+		default:
+			amt = new(big.Int).SetBytes(g.Bytes(1 + g.Rng.Intn(31)))
+		}
+		l = append(l, extraCur{id, amt.String()})
+	}
+	return l
 }
 
 func randRawCell(g *h.G) *boc.Cell {
@@ -1057,6 +1207,20 @@ func genC14(g *h.G) {
 			}
 			g.Emit("go.m.modes", vs, h.Hex(g.Bytes(32)), strings.Join(ss, ";"))
 		}
+		// SimpleTransfer with 1..3 extra currencies on every construction path, alone and mixed
+		for i := 0; i < g.Scale(4, 40); i++ {
+			sp := genSpec(g)
+			sp.kind, sp.init, sp.mode, sp.commentLen, sp.extras = "s", false, wallet.DefaultMessageMode, sp.commentLen%100, genExtras(g)
+			pl := genSpec(g)
+			pl.commentLen %= 100
+			xs := [][]sendSpec{{sp}, {pl, sp}}[i%2]
+			var ss []string
+			for _, x := range xs {
+				ss = append(ss, x.String())
+			}
+			g.Count(fmt.Sprintf("modes_path_extra_currencies_%d", len(sp.extras)))
+			g.Emit("go.m.modes", vs, h.Hex(g.Bytes(32)), strings.Join(ss, ";"))
+		}
 		for i := 0; i < g.Scale(6, 120); i++ {
 			var xs []string
 			for j := 0; j < 1+g.Rng.Intn(4); j++ {
@@ -1066,6 +1230,8 @@ func genC14(g *h.G) {
 			}
 			g.Emit("go.m.modes", vs, h.Hex(g.Bytes(32)), strings.Join(xs, ";"))
 		}
+		g.Count("limit_small_order_key")
+		g.Emit("go.m.smallkey", vs, fmt.Sprint(g.Rng.Intn(1<<30)))
 		// limits: both sides of the boundary, through the oracle and through the model
 		for _, n := range []int{max - 1, max, max + 1, max + 50} {
 			g.Count(fmt.Sprintf("limit_%s", map[bool]string{true: "within", false: "over"}[n <= max]))
@@ -1086,6 +1252,12 @@ func genInt(g *h.G) {
 		sp := genSpec(g)
 		if i%3 == 0 {
 			sp.kind, sp.init = "d", false
+		}
+		if i%5 == 1 {
+			sp.kind, sp.init, sp.mode, sp.extras = "s", false, wallet.DefaultMessageMode, genExtras(g)
+		}
+		if len(sp.extras) > 0 {
+			g.Count(fmt.Sprintf("int_extra_currencies_%d", len(sp.extras)))
 		}
 		g.Count("int_kind_" + sp.kind)
 		if sp.init || sp.kind == "d" {
